@@ -96,7 +96,7 @@ def P():
 # item shape used for the receivers of each class ('Qube' gets two: () and (2,))
 ITEMS = {'Qube': [(), (2,)], 'Scalar': [()], 'Boolean': [()], 'Vector': [(3,)], 'Vector3': [(3,)],
          'Pair': [(2,)], 'Matrix': [(2, 2)], 'Matrix3': [(3, 3)], 'Quaternion': [(4,)],
-         'Polynomial': [(3,), (4,)]}     # (4,): order 3, the array-based root solver
+         'Polynomial': [(3,), (4,), (2,)]}     # (4,): order 3, the array-based root solver; (2,): a line (invert_line)
 SHAPES = [(), (0,), (3,), (2, 3)]
 MASKS = ['F', 'T', 'aF', 'mix', 'bview']
 
@@ -155,6 +155,12 @@ def receivers_for(Pm, cname):
         for k in kinds[1:]:
             ext += [recv_desc(cname, (3,), item, k, 'mix'), recv_desc(cname, (), item, k, 'F'),
                     recv_desc(cname, (2, 3), item, k, 'F')]
+        if c.DERIVS_OK and cname not in ('Matrix3', 'Quaternion') and item == ITEMS[cname][0]:
+            # objects with denominator axes (extract/transpose/reshape_denom, join/split/swap_items never ran otherwise)
+            core.append(dict(recv_desc(cname, (3,), item, k0, 'mix'), denom=[2]))
+            ext += [dict(recv_desc(cname, (), item, k0, 'F'), denom=[2]),
+                    dict(recv_desc(cname, (2, 3), item, k0, 'aF'), denom=[2, 3]),
+                    dict(recv_desc(cname, (3,), item, k0, 'T'), denom=[3])]
     # de-duplicate, keep order
     seen, c2, e2 = set(), [], []
     for lst, out in ((core, c2), (ext, e2)):
@@ -210,6 +216,15 @@ def build_receiver(d, Pm, salt=0):
         return build_units(Pm, d['units'])
     c = getattr(Pm, d['cls'])
     shape, item = tuple(d['shape']), tuple(d['item'])
+    denom = tuple(d.get('denom', ()))              # receivers that are themselves partial derivatives
+    if denom:
+        vals = _values(d['kind'], shape + item + denom, salt)
+        mask = make_mask(d['mask'], shape)
+        kw = {'drank': len(denom)}
+        if d['cls'] == 'Qube':
+            kw['nrank'] = len(item)
+        obj = c(vals, mask, units=build_units(Pm, d.get('units')), **kw)
+        return obj.as_readonly() if d.get('ro') else obj
     vals = _values(d['kind'], shape + item, salt)
     if d['cls'] == 'Matrix3' or (d['cls'] == 'Matrix' and item == (2, 2)):
         vals = vals + 2.0 * np.eye(item[0])          # mostly non-singular ...
@@ -259,11 +274,44 @@ def _scalar_desc(shape=(), kind='float', mask='F', derivs='none', units=None):
     return recv_desc('Scalar', shape, (), kind, mask, derivs, units)
 
 
-def obj_pool(cname, mname, pname, recv):
-    """Object-valued parameter: the receiver itself (aliasing), an equal twin, a Scalar, numbers,
-    an ndarray, None and an object of a foreign class."""
+# parameters that take a Scalar / a Vector3 / a Matrix3 whatever the class of the receiver: their BASE choice must be
+# of that type, or every call of the method is rejected before it does anything (measured: clip_component,
+# from_cylindrical, from_euler, twovec, from_parts, from_rotation ... never succeeded with a twin of the receiver)
+SCALARISH = {'lower', 'upper', 'limit', 'low', 'high', 'radius', 'longitude', 'z', 'ra', 'dec', 'length', 'ai', 'aj',
+             'ak', 'angle', 'scalar', 'shift', 'top', 'norm', 'factor'}
+VECTORISH = {'vector', 'vector1', 'vector2', 'pole'}
+MATRIXISH = {'matrix'}
+
+
+def typed_base(cname, mname, pname, recv):
+    """valid specs (mostly-valid first) for a typed parameter, or []"""
     shape = tuple(recv['shape']) if recv and 'shape' in recv else (3,)
-    pool = [['same'], ['self'], ['obj', _scalar_desc((), 'float')], ['lit', 2], ['lit', 0.5], ['lit', 1.0]]
+    arr = shape if shape not in ((), (0,)) else (3,)
+    if mname == 'clip2d' and pname in ('lower', 'upper'):
+        return [['obj', recv_desc('Pair', (), (2,), 'float', 'F')], ['obj', recv_desc('Pair', arr, (2,), 'float', 'mix')],
+                ['obj', recv_desc('Pair', (), (2,), 'float', 'T')], ['lit', None]]
+    if pname in SCALARISH or (pname in ('a', 'b', 'c') and mname in ('solve_quadratic', 'eval_quadratic')) \
+            or (pname in ('x', 'y') and mname == 'from_scalars') or (pname == 'arg' and mname in ('is_inside', 'is_outside', 'is_above', 'is_below')):
+        if cname == 'Scalar' and mname not in ('solve_quadratic', 'from_cylindrical'):
+            return []           # a twin of a Scalar receiver already is one
+        return [['obj', _scalar_desc((), 'float')], ['obj', _scalar_desc(arr, 'float', 'mix', 't')],
+                ['obj', _scalar_desc((), 'float', 'T')], ['obj', _scalar_desc(arr, 'float', 'T')]]
+    if pname in VECTORISH and cname != 'Vector3':
+        return [['obj', recv_desc('Vector3', (), (3,), 'float', 'F')], ['obj', recv_desc('Vector3', arr, (3,), 'float', 'mix', 't')],
+                ['obj', recv_desc('Vector3', (), (3,), 'float', 'T')]]
+    if pname in MATRIXISH and cname != 'Matrix3':
+        return [['obj', recv_desc('Matrix3', (), (3, 3), 'float', 'F')], ['obj', recv_desc('Matrix3', arr, (3, 3), 'float', 'mix', 't')]]
+    if mname == 'mul_values' and pname in ('a', 'b'):
+        return [['nparr', 'float', [4]], ['nparr', 'float', [3, 4]]]
+    return []
+
+
+def obj_pool(cname, mname, pname, recv):
+    """Object-valued parameter: a value of the type the parameter takes (typed_base), the receiver itself
+    (aliasing), an equal twin, a Scalar, numbers, an ndarray, None and an object of a foreign class."""
+    shape = tuple(recv['shape']) if recv and 'shape' in recv else (3,)
+    pool = typed_base(cname, mname, pname, recv) + \
+        [['same'], ['self'], ['obj', _scalar_desc((), 'float')], ['lit', 2], ['lit', 0.5], ['lit', 1.0]]
     pool.append(['obj', _scalar_desc(shape, 'float', 'mix' if shape not in ((), (0,)) else 'F', 't')])
     pool.append(['bcast'])        # same class, another array shape that broadcasts with the receiver's
     pool.append(['bcast1'])       # same class, shape (1,), fully masked through an ARRAY mask
@@ -306,6 +354,14 @@ def pool_for(cname, mname, pname, param, recv):
         if mname in ('or_', 'and_'):
             return [['varargs', [['mask', 'mix'], ['mask', 'F']]], ['varargs', [['mask', 'T'], ['mask', 'aF'], ['mask', 'mix']]],
                     ['varargs', [['mask', 'mix'], ['mask', 'mix2']]]]
+        if mname in ('from_scalars', 'maximum', 'minimum'):
+            n = {'Pair': 2, 'Vector3': 3, 'Quaternion': 4, 'Matrix3': 9, 'Matrix': 4, 'Polynomial': 3}.get(cname, 3)
+            sc = [['obj', _scalar_desc((), 'float')], ['obj', _scalar_desc((3,), 'float', 'mix', 't')], ['lit', 2.],
+                  ['obj', _scalar_desc((), 'float', 'T')], ['obj', _scalar_desc((3,), 'float', 'F')], ['lit', 0],
+                  ['obj', _scalar_desc((), 'int')], ['obj', _scalar_desc((3,), 'float', 'T')], ['lit', 1.5]]
+            return [['varargs', sc[:n]], ['varargs', (sc[3:] + sc[:3])[:n]], ['varargs', [['same'], ['self']]],
+                    ['varargs', sc[:n + 1]], ['varargs', []],
+                    ['varargs', [['obj', _scalar_desc((), 'float', units='KM')]] + sc[1:n]]]
         return [['varargs', [['same'], ['self']]], ['varargs', [['self'], ['obj', _scalar_desc((), 'float')], ['lit', 2]]],
                 ['varargs', [['self'], ['self'], ['same']]], ['varargs', []],
                 ['varargs', [['obj', _scalar_desc((3,), 'float', 'mix', 't')], ['obj', _scalar_desc((), 'int')],
@@ -349,8 +405,9 @@ def pool_for(cname, mname, pname, param, recv):
             return omit + [['lit', [0, 1]], ['lit', [2, 0]], ['lit', [0, 7]]]
         return omit + [['lit', 'rzxz'], ['lit', 'sxyz'], ['lit', 'bogus']]
     if pname in ('axis1', 'axis2', 'source', 'destination', 'start'):
-        if mname == 'twovec':
-            return [['lit', 0], ['lit', 2], ['lit', 1], ['lit', 5]]
+        if mname == 'twovec':          # the two axes must differ for the call to be accepted
+            return [['lit', 0], ['lit', 2], ['lit', 1], ['lit', 5]] if pname == 'axis1' else \
+                [['lit', 1], ['lit', 2], ['lit', 0], ['lit', 5]]
         return omit + [['lit', 0], ['lit', -1], ['lit', 1], ['lit', 5]]
     if pname == 'shape':
         if mname in ('reshape_numer', 'reshape_denom'):
